@@ -1,7 +1,7 @@
 (* C14 — Live-time queries agree with the set of half-open up-time intervals.
    Statements only; every proof is `exact <lemma>`. *)
 From Coq Require Import ZArith List Bool Lia.
-From Sky Require Import Result PyList M_Livetime S_Livetime P_Livetime.
+From Sky Require Import Result PyList M_Livetime S_Livetime P_Livetime P_LivetimeGrl.
 Import ListNotations.
 Open Scope Z_scope.
 
@@ -77,6 +77,69 @@ Theorem C14_draw_optional_bounds : forall ivs (t_min t_max : option Z) w,
   end.
 Proof. exact draw_opt_spec. Qed.
 Print Assumptions C14_draw_optional_bounds.
+
+(* ---- good-run list -> Livetime (clip_grl_start_times, I3Livetime.from_grl_data), the way
+   time_dependent_ps.create_analysis builds the live time.  A good-run list is its list of (start, stop) rows. *)
+
+(* The chain accepts exactly the lists whose runs are ordered (start <= stop) and whose stop times do not
+   decrease; everything else (a run ending before its predecessor ends) raises ValueError in the constructor. *)
+Theorem C14_grl_accepts_iff : forall runs,
+  (Forall ordered runs /\ nondecreasing (map snd runs) = true -> exists ivs, grl_livetime runs = Ok ivs /\ wf ivs)
+  /\ (~ (Forall ordered runs /\ nondecreasing (map snd runs) = true) -> grl_livetime runs = Err ValueError).
+Proof.
+  intros runs; split.
+  - intros H. exists (clip_grl runs). split.
+    + unfold grl_livetime. apply (proj1 (from_grl_spec _)). now apply clip_grl_wf_iff.
+    + now apply clip_grl_wf_iff.
+  - exact (grl_livetime_rejects runs).
+Qed.
+Print Assumptions C14_grl_accepts_iff.
+
+(* For runs sorted by start time (overlaps allowed) a time is reported as on exactly when it lies in one of the
+   half-open runs; the stop column and the number of runs are kept. *)
+Theorem C14_grl_is_on : forall runs,
+  Forall ordered runs ->
+  nondecreasing (map fst runs) = true ->
+  nondecreasing (map snd runs) = true ->
+  exists ivs, grl_livetime runs = Ok ivs
+    /\ wf ivs
+    /\ (forall t, is_on ivs t = true <-> In_on runs t)
+    /\ map snd ivs = map snd runs
+    /\ length ivs = length runs.
+Proof. exact grl_livetime_spec. Qed.
+Print Assumptions C14_grl_is_on.
+
+(* Clipping is the identity on a sorted, non-overlapping list, never writes the stop column, and without clipping
+   from_grl_data accepts exactly the sorted, non-overlapping lists. *)
+Theorem C14_grl_clip_id : forall runs,
+  (wf runs -> clip_grl runs = runs)
+  /\ map snd (clip_grl runs) = map snd runs
+  /\ (wf runs -> from_grl runs = Ok runs) /\ (~ wf runs -> from_grl runs = Err ValueError).
+Proof.
+  intros runs. split; [exact (clip_grl_id runs)|]. split; [exact (clip_grl_stops runs)|]. exact (from_grl_spec runs).
+Qed.
+Print Assumptions C14_grl_clip_id.
+
+(* get_integrated_livetime: a number is returned unchanged, a Livetime gives the measure of its on-time. *)
+Theorem C14_integrated_livetime :
+  (forall v, integrated_livetime (inl v) = v) /\ (forall ivs, integrated_livetime (inr ivs) = measure ivs).
+Proof. exact integrated_livetime_spec. Qed.
+Print Assumptions C14_integrated_livetime.
+
+(* non-vacuity: overlapping runs (one slightly, one touching, one zero-length) meet the hypotheses, the clipped
+   list is what the code produces, and a run contained in its predecessor is rejected. *)
+Example C14_grl_nonvacuous :
+  let runs := [(10, 20); (18, 30); (30, 30); (29, 41); (50, 60)] in
+  Forall ordered runs /\ nondecreasing (map fst runs) = false /\ nondecreasing (map snd runs) = true
+  /\ grl_livetime runs = Ok [(10, 20); (20, 30); (30, 30); (30, 41); (50, 60)]
+  /\ grl_livetime [(10, 20); (18, 30); (29, 41)] = Ok [(10, 20); (20, 30); (30, 41)]
+  /\ nondecreasing (map fst [(10, 20); (18, 30); (29, 41)]) = true
+  /\ from_grl [(10, 20); (18, 30)] = Err ValueError
+  /\ grl_livetime [(0, 10); (2, 5)] = Err ValueError.
+Proof.
+  cbv zeta. repeat split; try (vm_compute; reflexivity).
+  repeat constructor; unfold ordered; cbn; lia.
+Qed.
 
 (* non-vacuity: a concrete list with a touching pair, a zero-length interval
    and gaps meets the hypotheses; windows in a gap / before / after give []. *)
